@@ -33,7 +33,7 @@ impl<'a> Gen<'a> {
     }
 
     pub fn run(&mut self) {
-        let mut prog = Program { leaves: self.leaves.clone(), nodes: Vec::new(), retrack: Vec::new() };
+        let mut prog = Program { leaves: self.leaves.clone(), nodes: Vec::new(), retrack: Vec::new(), frozen: Vec::new(), dropped: Vec::new() };
         let mut vals: Vec<T> = self.leaves.iter().map(|l| T::from_f64(l.dims.clone(), &l.vals)).collect();
         self.rec(&mut prog, &mut vals);
     }
